@@ -71,8 +71,17 @@ def third_reader():
                 wunc[int(t[0])] = lead_unc(t[3])
     for line in mass.isotope_abundance.split("\n"):
         t = line.split()
-        if line[:1] not in (" ", "\t"):
-            blocks.append((int(t[0]), []))
+        # what a row is, is read from its content (an element row names a symbol, an isotope row gives a number and a
+        # value); the indentation the loader goes by must agree with it
+        by_content = len(t) >= 2 and t[1][:1].isalpha()
+        by_indent = line[:1] not in (" ", "\t")
+        if by_content != by_indent:
+            ROW_KEYS.append("row %r of the composition table reads as an %s row but is %s" % (
+                line, "element" if by_content else "isotope", "not indented" if by_indent else "indented"))
+        if by_content:
+            if sym2z.get(t[1]) != int(t[0]):
+                ROW_KEYS.append("row %r of the composition table is filed under Z = %s but names %s" % (line.strip(), t[0], t[1]))
+            blocks.append((sym2z.get(t[1], int(t[0])), []))
         else:
             # the cell is read from the rest of the line with the documented notations
             # value(unc) | [nominal] | [low,high] (blanks inside the brackets allowed)
@@ -201,6 +210,24 @@ def main():
     density.init(priv)
     c2, m2 = sweep(priv)
     fails = direct("public", periodictable.elements) + direct("private", priv)
+    # a private table is filled from the embedded tables, whatever was done to the public table before it was created
+    try:
+        pub = periodictable.elements
+        pub.Li[6]._abundance, pub.Li[7]._abundance = 95.0, 5.0
+        pub.B._mass = 10.2
+        pub.Fe[57]._mass = 56.9
+        pub.Si._density = 2.0
+        late = core.PeriodicTable("verif_c06_late")
+        mass.init(late)
+        density.init(late)
+        for f in direct("private table created after edits of the public table", late):
+            f["signature"] = f["signature"].replace("C06:", "C06:after-public-edit:", 1)
+            f["what"] = ("after elements.Li[6]._abundance = 95, elements.B._mass = 10.2, elements.Fe[57]._mass = 56.9, "
+                         "elements.Si._density = 2.0 and then T = PeriodicTable(..); mass.init(T); density.init(T): " + f["what"])
+            fails.append(f)
+    except Exception as e:  # noqa
+        fails.append(dict(signature="C06:after-public-edit:raises", what="creating a private table after editing the public one raised %s: %s"
+                          % (type(e).__name__, e), table="late"))
     out = dict(cases=c1 + c2, meta=[["public"] + m for m in m1] + [["private"] + m for m in m2],
                direct_fails=fails, n_public=len(c1), n_private=len(c2))
     json.dump(out, sys.stdout)
